@@ -14,6 +14,8 @@ import ODataVerif.Model.Rewrite
 import ODataVerif.Spec.Traversal
 import ODataVerif.Spec.Reroot
 import ODataVerif.Spec.Subst
+import ODataVerif.Spec.RefPrinter
+import ODataVerif.Model.Printer
 open OQ OQ.Wire
 
 def encTok : Tok → String
@@ -114,6 +116,14 @@ def handle (args : List String) : String :=
         match mt with
         | .list kvs => encTree (Spec.subst (pairsOf kvs) [] t)
         | _ => "bad-arg"))
+  | ["refprint", mode, sty, w] =>
+      -- sty: four characters 0/1 = afterMinus insideParens aroundComma aroundColon
+      withExpr w (fun e =>
+        let b (i : Nat) : Bool := (sty.toList.getD i '0') == '1'
+        let st : Spec.Style := ⟨b 0, b 1, b 2, b 3⟩
+        let md := if mode == "full" then Spec.Mode.full else Spec.Mode.minimal
+        hexOfString (String.ofList (Spec.render (Spec.printToks st md e))))
+  | ["rtrender", w] => withExpr w (fun e => hexOfString (String.ofList (rtRender e)))
   | ["infer", w] => withExpr w (fun e => match inferType e with | some t => t.className | none => "None")
   | ["typeof", w] => withExpr w (fun e => encOTy (Spec.typeOf gamma e))
   | ["typecheck", w, allowed] =>
